@@ -24,7 +24,7 @@ def simpson(n, h):
 def job_normalize(res, n, nb, pat, sparse=False):
     bld = ps_build(); mod = load_module(bld, PS_MODS)
     snap, R, pre = ps_world(bld, n, nb, pat)
-    validate(res, mod, snap, pre)
+    if not sparse: validate(res, mod, snap, pre)      # (translator validation is done on the small grids; the large ones would only repeat it at 60 times the cost)
     ex = Exec(mod, snap, RealDom()); ex.max_ins = 400_000_000; st = State(); ps = R['ps']
     if sparse:      # a grid larger than the default one, zero except symbolic cells on a few lines (see job_projections)
         lines = sorted({v for v in (0, 1, n // 2, 128, 255, 256, 257, n - 2, n - 1) if 0 <= v < n})
@@ -36,7 +36,7 @@ def job_normalize(res, n, nb, pat, sparse=False):
     else: D = sym_reals(ex, st, R['data'], ['d%d' % i for i in range(nb * n * n)], 0, None)
     fs = fills(nb, pat)
     ws = [float(ex.load(st, R['ws'] + 4 * i, F32)) for i in range(n)]
-    d0 = float(R['delta0']); want_ws = simpson(n, d0)
+    d0 = f32(f32(12.0) / f32(n - 1)); want_ws = simpson(n, d0)      # cell size of the default axis [-6, 6] (the harness publishes it with six decimals only)
     okw = all(abs(a - b) <= 1e-6 * abs(b) for a, b in zip(ws, want_ws))
     res.obs.append(Ob('n=%d: Simpson weights are h/3*(1,4,2,...,4,1) with h = cell size (%s)' % (n, ws), 'holds' if okw else 'violated', key='simpson-weights', cex=None if okw else {'got': ws, 'want': want_ws}))
     for f in ('e_updx', 'e_integrate'): st = ex.run1(st, f, [ps])
